@@ -559,3 +559,73 @@ func C16State(s *Snap) []engine.Finding {
 }
 
 var _ = world.Denom
+
+// ---------------------------------------------------------------------------------------------
+// C15 (engine X part): every assignment made by store / ready / timeout handling / migrate
+
+func eligibleIn(s *Snap, sp string, size uint64) string {
+	n, ok := s.Nodes[sp]
+	if !ok {
+		return "not-a-node"
+	}
+	if n.Status&stElig != stElig {
+		return "not-online-serving-accepting"
+	}
+	if n.Reputation < 8000 {
+		return "reputation-below-floor"
+	}
+	p, ok := s.Pledges[sp]
+	if !ok {
+		return "no-pledge"
+	}
+	if p.TotalStorage-p.UsedStorage < int64(size) {
+		return "not-enough-free-capacity"
+	}
+	return ""
+}
+
+func C15Step(si *engine.StepInfo, pre, post *Snap) []engine.Finding {
+	var out []engine.Finding
+	byOrder := map[uint64][]ordertypes.Shard{}
+	for _, sid := range post.ShardIds {
+		if _, old := pre.Shards[sid]; old {
+			continue
+		}
+		sh := post.Shards[sid]
+		byOrder[sh.OrderId] = append(byOrder[sh.OrderId], sh)
+	}
+	for _, oid := range sortedU64(byOrder) {
+		news := byOrder[oid]
+		seen := map[string]bool{}
+		po, existed := pre.Orders[oid]
+		if existed {
+			for _, id := range po.Shards {
+				if sh, ok := pre.Shards[id]; ok {
+					seen[sh.Sp] = true
+				}
+			}
+		}
+		reused := false
+		if qo, ok := post.Orders[oid]; ok && qo.Operation == 2 && !existed {
+			reused = true // force-push re-uses the current providers of the model (separate discriminator)
+		}
+		for _, sh := range news {
+			if seen[sh.Sp] {
+				out = append(out, fd("C15", "assignment", cmpb(existed, "provider-already-holds-or-timed-out-on-the-order", "duplicate-provider"), fmt.Sprintf("order %d: new shard %d assigned to %s, which already has a shard of this order", oid, sh.Id, si.W.NameOf(sh.Sp))))
+			}
+			seen[sh.Sp] = true
+			if why := eligibleIn(pre, sh.Sp, sh.Size_); why != "" {
+				out = append(out, fd("C15", "assignment", cmpb(reused, "force-push-reuse:", "")+why, fmt.Sprintf("order %d: new shard %d assigned to %s: %s", oid, sh.Id, si.W.NameOf(sh.Sp), why)))
+			}
+		}
+		if qo, ok := post.Orders[oid]; ok && !existed && qo.Operation != 3 {
+			if int32(len(news)) > qo.Replica {
+				out = append(out, fd("C15", "assignment", "more-than-requested", fmt.Sprintf("order %d: %d shards for replica %d", oid, len(news), qo.Replica)))
+			}
+			if qo.Status == ordertypes.OrderDataReady && int32(len(news)) < qo.Replica {
+				out = append(out, fd("C15", "assignment", "under-replicated", fmt.Sprintf("order %d accepted with %d shards for replica %d", oid, len(news), qo.Replica)))
+			}
+		}
+	}
+	return out
+}
